@@ -9,6 +9,8 @@ import (
 
 	"verifrt"
 
+	"github.com/iancoleman/orderedmap"
+
 	"github.com/iotaledger/hive.go/serializer/v2"
 )
 
@@ -650,3 +652,127 @@ func zDecodeArbitrary(canonical bool, only int) {
 	verifrt.Assert(eerr == nil && bytes.Equal(enc, b[:n]), "the validating serix decoder accepted bytes whose re-encoding (with validation) fails or differs from the consumed bytes")
 	verifrt.Cover("canonical")
 }
+
+// ---------------------------------------------------------------------------------------------------------
+// C02, JSON/map form: MapDecode on well-formed JSON of the wrong shape. Nothing is symbolic here (numbers travel
+// as float64 and as decimal / hex strings): the JSON-shaped values are enumerated from a small alphabet of
+// shapes. The only assertion is totality: a value or an error, never a panic.
+
+type zJSONTarget struct {
+	N8  uint8     `serix:""`
+	N64 uint64    `serix:""`
+	F   float32   `serix:""`
+	B   bool      `serix:""`
+	S   string    `serix:",lenPrefix=uint8"`
+	By  []byte    `serix:",lenPrefix=uint8"`
+	Arr [2]byte   `serix:""`
+	T   time.Time `serix:""`
+	Big *big.Int  `serix:""`
+	In  zInner    `serix:""`
+	L   []zInner  `serix:",lenPrefix=uint8"`
+	Sh  zShape    `serix:""`
+	Op  *zTiny    `serix:",optional"`
+}
+
+func zJSONValue(name string) any {
+	switch verifrt.Choose(name, 8) {
+	case 0:
+		return "1"
+	case 1:
+		return float64(1)
+	case 2:
+		return true
+	case 3:
+		return nil
+	case 4:
+		return []any{float64(1)}
+	case 5:
+		return map[string]any{"type": float64(100), "size": float64(1)}
+	case 6:
+		return "0x0102"
+	default:
+		return map[string]any{"x": "1"}
+	}
+}
+
+// zPlain converts the ordered maps MapEncode produces into the plain map[string]any / []any trees a JSON decoder
+// would hand to MapDecode.
+func zPlain(v any) any {
+	switch x := v.(type) {
+	case *orderedmap.OrderedMap:
+		out := map[string]any{}
+		for _, k := range x.Keys() {
+			e, _ := x.Get(k)
+			out[k] = zPlain(e)
+		}
+
+		return out
+	case orderedmap.OrderedMap:
+		return zPlain(&x)
+	case []any:
+		out := make([]any, len(x))
+		for i := range x {
+			out[i] = zPlain(x[i])
+		}
+
+		return out
+	case uint8:
+		return float64(x)
+	case uint16:
+		return float64(x)
+	case uint32:
+		return float64(x)
+	case int8:
+		return float64(x)
+	case int16:
+		return float64(x)
+	case int32:
+		return float64(x)
+	case uint64: // MapEncode hands numbers of up to 32 bits on as 64-bit values; JSON turns them into numbers
+		return float64(x)
+	case int64:
+		return float64(x)
+	}
+
+	return v
+}
+
+//verif:h prop=C02 cover=accepted,rejected native=0 runs=3000000 timeout=600/900 steps=3000000
+func H_C02_serix_map() {
+	api := zAPI()
+	ctx := context.Background()
+	fields := []string{"n8", "n64", "f", "b", "s", "by", "arr", "t", "big", "in", "l", "sh", "op"}
+	var target any
+	doc := map[string]any{}
+	if verifrt.Choose("small", 2) == 1 {
+		// a two-field struct with every combination of shapes (the right one included)
+		target = &zInner{}
+		doc["x"], doc["y"] = zJSONValue("sx"), zJSONValue("sy")
+	} else {
+		// a complete, valid document (the map form of a valid value) in which one field is replaced by a value of
+		// an arbitrary JSON shape
+		target = &zJSONTarget{}
+		valid := &zJSONTarget{N8: 1, N64: 2, F: 1, B: true, S: "a", By: []byte{1}, Arr: [2]byte{1, 2}, T: time.Unix(0, 5), Big: big.NewInt(7),
+			In: zInner{X: 1, Y: true}, L: []zInner{{X: 2}}, Sh: &zSquare{Size: 3}}
+		om, merr := api.MapEncode(ctx, valid)
+		verifrt.Assert(merr == nil && om != nil, "MapEncode of a valid value failed")
+		doc = zPlain(om).(map[string]any)
+		doc[fields[verifrt.Choose("field", len(fields))]] = zJSONValue("shape")
+	}
+	opts := zOpts()
+	var err error
+	func() {
+		defer func() {
+			if r := recover(); r != nil {
+				verifrt.Assert(false, "serix.MapDecode panicked on well-formed JSON of the wrong shape")
+			}
+		}()
+		err = api.MapDecode(ctx, doc, target, opts...)
+	}()
+	if err != nil {
+		verifrt.Cover("rejected")
+	} else {
+		verifrt.Cover("accepted")
+	}
+}
+
